@@ -39,11 +39,40 @@ fn case(seed: u64, lane: Lane, trace: bool) -> super::CaseOut {
     out
 }
 
+/// Stress the assembler: heavy duplication and reordering, slow partial readers that switch
+/// from ordered to unordered reads.
+fn dup_switch_case(seed: u64, trace: bool) -> super::CaseOut {
+    let mut k = Knobs::default();
+    k.ops = false;
+    k.datagrams = false;
+    k.aborts = false;
+    k.max_streams = 3;
+    k.max_stream_len = 30_000;
+    k.fault_window_ns = Some(20_000_000_000);
+    let mut h = Honest::random(seed, &k);
+    h.net.dup_pm = 300;
+    h.net.reorder_pm = 200;
+    h.net.loss_pm = h.net.loss_pm.min(50);
+    h.net.corrupt_pm = 0;
+    for a in h.cli_app.iter_mut().chain([&mut h.srv_app]) {
+        a.unordered_pct = 0;
+        a.switch_pct = 100;
+        a.budget_pct = 100;
+        a.small_reads = true;
+    }
+    let mut ran = run_honest(&h, trace, 60_000, 600_000_000_000);
+    let mut out = base_out(&h, &mut ran, trace);
+    out.nontrivial = out.cnt.get("c01.ordered_to_unordered_switch") > 0;
+    out
+}
+
 pub fn run(ctx: &Ctx) -> i32 {
     let t = std::time::Instant::now();
     let mut rep = Report::default();
     let g = Group { name: "honest-null", cases: ctx.tier.pick(600, 40_000), budget_s: ctx.tier.pick(40.0, 900.0), exhaustive: false };
     run_group(ctx, &mut rep, &g, |_, seed, trace| case(seed, Lane::Null, trace));
+    let g = Group { name: "dup-switch", cases: ctx.tier.pick(300, 20_000), budget_s: ctx.tier.pick(20.0, 300.0), exhaustive: false };
+    run_group(ctx, &mut rep, &g, |_, seed, trace| dup_switch_case(seed, trace));
     #[cfg(feature = "real")]
     {
         let g = Group { name: "honest-real", cases: ctx.tier.pick(100, 4_000), budget_s: ctx.tier.pick(25.0, 300.0), exhaustive: false };
@@ -61,7 +90,7 @@ pub fn run(ctx: &Ctx) -> i32 {
             ],
             min_evals: ctx.tier.pick(60, 2000),
             min_nontrivial: ctx.tier.pick(20, 200),
-            required: vec!["c01.chunks", "c01.eos", "net.loss", "net.dup", "net.reorder"],
+            required: vec!["c01.chunks", "c01.eos", "net.loss", "net.dup", "net.reorder", "c01.ordered_to_unordered_switch", "c01.partial_reads"],
             exhaustive: false,
         },
         t.elapsed().as_secs_f64(),
